@@ -14,7 +14,7 @@ var directiveKeywords = []string{"@if", "@else", "@elseif", "@end", "@use", "@re
 	"@continue", "@continueIf", "@break", "@breakIf", "@component", "@slot", "@dump"}
 
 func sigma() []string {
-	syms := []string{"@", "\\", "{", "}", "{{", "}}", "-", "--", "{{--", "--}}", "(", ")", "x", " ", "\n", "\r", "é", "\xff", "if", "If", "\""}
+	syms := []string{"@", "\\", "{", "}", "{{", "}}", "-", "--", "{{--", "--}}", "(", ")", "x", " ", "\n", "\r", "é", "\xff", "if", "If", "i", "I", "\""}
 	seen := map[string]bool{}
 	for _, s := range syms {
 		seen[s] = true
@@ -300,9 +300,14 @@ func posTable(src string) (line, col []int) {
 	return
 }
 
-func stripEscapes(s string) string {
+func stripEscapes(s string) string { return stripEscapesIn(s, 0, len(s)) }
+
+// stripEscapesIn removes the escaping backslashes from src[a:b]; what a backslash escapes is
+// decided by the bytes that follow it in the whole source
+func stripEscapesIn(src string, a, b int) string {
 	var sb strings.Builder
-	for i := 0; i < len(s); i++ {
+	s := src
+	for i := a; i < b; i++ {
 		if s[i] == '\\' && i+1 < len(s) {
 			rest := s[i+1:]
 			esc := strings.HasPrefix(rest, "{{")
@@ -385,7 +390,7 @@ func oracleC19(c *Case, impl string) string {
 		okText := false
 		switch t.ty {
 		case "HTML":
-			okText = stripEscapes(text) == t.lit
+			okText = stripEscapesIn(src, a, bEx) == t.lit
 		case "STR":
 			q := text[0]
 			if q == '"' || q == '\'' {
